@@ -503,6 +503,37 @@ func hostileObfs4(c *mon.Case, r *mon.Run, dir string, victimRole string, attack
 			out = append(out, rc.Enc.Frame(ref.Packet(ref.PacketPayload, make([]byte, 1427), 0))...)
 		}
 		rc.Conn.Write(out)
+	case "seed-packets-while-writing":
+		// a server may send PRNG-seed packets at any time; here it sends thousands
+		// (seeds of all kinds, hence length tables of very different sizes) while
+		// the victim's application is writing: the distribution is re-seeded by
+		// the reader concurrently with Write sampling from it
+		var wdone sync.WaitGroup
+		wdone.Add(1)
+		var wpanic any
+		c.Go(wdone.Done, func() {
+			defer func() { wpanic = recover() }()
+			blk := make([]byte, 64)
+			for i := 0; i < 2500; i++ {
+				if _, err := vconn.Write(blk); err != nil {
+					return
+				}
+			}
+		})
+		sd := make([]byte, 24)
+		for i := 0; i < 2500; i++ {
+			for k := range sd {
+				sd[k] = byte(rng.IntN(256))
+			}
+			raw(ref.Packet(ref.PacketPrngSeed, sd, 0))
+		}
+		wdone.Wait()
+		if wpanic != nil {
+			c.Violation("panic/Write/seed-packets-while-writing", fmt.Sprintf("the victim's Write panicked while the peer was sending PRNG-seed packets: %v", wpanic), nil)
+		}
+		rc.WriteData(st.Bytes(int64(pre), 200), 0, 0)
+		sentValid += 200
+		expectErr = false
 	case "garbage-4MiB":
 		blk := make([]byte, 65536)
 		for i := 0; i < 64; i++ {
@@ -552,7 +583,7 @@ func hostileObfs4(c *mon.Case, r *mon.Run, dir string, victimRole string, attack
 func TestCheck(t *testing.T) {
 	r := mon.Start(t, "C10")
 	defer r.Finish()
-	r.Note("rule", "ScrambleSuit client against the reference server, UniformDH and session-ticket handshakes (cuts/flips on the response direction at offsets through and beyond the handshake; authenticated malformed packets: total length too large, payload length beyond total, unknown flags, NewTicket/seed of wrong length, a header promising 1427 bytes never completed, 5000 padding packets, 4 MiB garbage); meek_lite client against scripted raw HTTP peers (non-HTTP garbage, 500 forever, 404 then 200, bodies larger than 65536, lying Content-Length, dropped headers, broken chunking, 65536-byte answers with and without a reading application; the first request held without an answer while the application writes until its Write blocks behind the full queue, then the HTTP connection closed / reset / answered short); SOCKS5 front end with the client stopping (EOF/reset/silence) at every byte offset of a valid exchange and after PRNG garbage; per transport with both roles (obfs2, obfs3, obfs4): real client <-> real server with one wire fault: cut with EOF / an error (connection reset, a temporary timeout from a lower layer, ErrUnexpectedEOF, net.ErrClosed, ErrClosedPipe, a wrapped EOF - by offset) / silence at byte offset k of either direction (quick: every offset 0..64, every 16th up to 600, PRNG beyond up to the maximum handshake length; thorough: every offset up to 1200 and every 7th beyond) and single-bit mutations at PRNG offsets; scripted peers sending garbage of lengths around every limit (0,1,63,64,140,141,192,193,1000,8191,8192,8193,8194+32,8194+33,16384,65536, 4 MiB) followed by silence or EOF, under chunkings {all,1,PRNG}; obfs2 with a structure-aware hostile peer (correct magic, announced PADLEN in {0, 8192, 8193, 65536, 1 MiB, 64 MiB, 256 MiB}, 256 KiB of padding streamed; judged by the growth of the process heap at quiescence, bound 24 MiB); obfs4 with a key-holding hostile peer (reference implementation): payload length beyond the packet, packets shorter than a header, unknown types, seed packets of wrong length/role, 20000 empty frames, a frame never completed, 4 MiB of garbage after the handshake. Virtual time: every case runs 200 s (all handshake deadlines and the obfs4 close delay) before it is judged at quiescence. Non-trivial = every case; distinct = (transport, role, fault, offset).")
+	r.Note("rule", "ScrambleSuit client against the reference server, UniformDH and session-ticket handshakes (cuts/flips on the response direction at offsets through and beyond the handshake; authenticated malformed packets: total length too large, payload length beyond total, unknown flags, NewTicket/seed of wrong length, a header promising 1427 bytes never completed, 5000 padding packets, 4 MiB garbage); meek_lite client against scripted raw HTTP peers (non-HTTP garbage, 500 forever, 404 then 200, bodies larger than 65536, lying Content-Length, dropped headers, broken chunking, 65536-byte answers with and without a reading application; the first request held without an answer while the application writes until its Write blocks behind the full queue, then the HTTP connection closed / reset / answered short); SOCKS5 front end with the client stopping (EOF/reset/silence) at every byte offset of a valid exchange and after PRNG garbage; per transport with both roles (obfs2, obfs3, obfs4): real client <-> real server with one wire fault: cut with EOF / an error (connection reset, a temporary timeout from a lower layer, ErrUnexpectedEOF, net.ErrClosed, ErrClosedPipe, a wrapped EOF - by offset) / silence at byte offset k of either direction (quick: every offset 0..64, every 16th up to 600, PRNG beyond up to the maximum handshake length; thorough: every offset up to 1200 and every 7th beyond) and single-bit mutations at PRNG offsets; scripted peers sending garbage of lengths around every limit (0,1,63,64,140,141,192,193,1000,8191,8192,8193,8194+32,8194+33,16384,65536, 4 MiB) followed by silence or EOF, under chunkings {all,1,PRNG}; obfs2 with a structure-aware hostile peer (correct magic, announced PADLEN in {0, 8192, 8193, 65536, 1 MiB, 64 MiB, 256 MiB}, 256 KiB of padding streamed; judged by the growth of the process heap at quiescence, bound 24 MiB); obfs4 with a key-holding hostile peer (reference implementation): payload length beyond the packet, packets shorter than a header, unknown types, seed packets of wrong length/role, 20000 empty frames, 2500 PRNG-seed packets while the victim's application is writing, a frame never completed, 4 MiB of garbage after the handshake. Virtual time: every case runs 200 s (all handshake deadlines and the obfs4 close delay) before it is judged at quiescence. Non-trivial = every case; distinct = (transport, role, fault, offset).")
 	dir := o4.StateDir("c10")
 	r.SpinWatch(memwire.BytesMoved)
 	trs := []string{"obfs2", "obfs3", "obfs4"}
@@ -702,7 +733,7 @@ func TestCheck(t *testing.T) {
 		})
 	}
 	// (c) hostile key-holding obfs4 peer
-	attacks := []string{"payload-length-beyond-packet", "payload-length-65535", "packet-shorter-than-header", "unknown-packet-type", "seed-packet-wrong-length", "seed-packet-to-server-or-second-seed", "frame-length-field-out-of-range", "empty-frames-flood", "frame-never-completed", "garbage-4MiB"}
+	attacks := []string{"payload-length-beyond-packet", "payload-length-65535", "packet-shorter-than-header", "unknown-packet-type", "seed-packet-wrong-length", "seed-packet-to-server-or-second-seed", "frame-length-field-out-of-range", "seed-packets-while-writing", "empty-frames-flood", "frame-never-completed", "garbage-4MiB"}
 	for _, role := range []string{"server", "client"} {
 		for _, a := range attacks {
 			role, a := role, a
@@ -710,6 +741,12 @@ func TestCheck(t *testing.T) {
 				n := r.Pick(8, 48)
 				if a == "empty-frames-flood" || a == "garbage-4MiB" {
 					n = r.Pick(1, 6)
+				}
+				if a == "seed-packets-while-writing" {
+					if role == "server" {
+						return // a server ignores seed packets
+					}
+					n = r.Pick(2, 24)
 				}
 				for i := 0; i < n; i++ {
 					hostileObfs4(c, r, dir, role, a, r.Sub("h", role, a, i))
